@@ -109,6 +109,12 @@ CLAIMED["C03"] = ("other",
     "Trusted: encoding/binary, bytes.Buffer; extractor limits as in C15. The split threshold's behaviour over histories is not decided.",
     "DESIGN.md §4 C03")
 
+CLAIMED["C16"] = ("other",
+    "relational bounds analysis on go/ssa (linear facts from dominating branch edges over polynomial forms, sub-slice lengths as terms, intervals, monotone loop counters, proved callee post-conditions), nil-guard analysis, progress rule, error-discipline and reflect-assignability rules",
+    "Decides memory safety and termination of the decoder for every byte string and target type without running it: at each of the index/slice sites on the input bytes in the decode path 0 <= i < len and 0 <= lo <= hi <= len are proved; parseTagAndLength's post-conditions (1 <= offset <= len(input), length >= 0) are proved on the callee and used at call sites; optional field-parameter pointers are dereferenced only under a nil test; every scanning loop advances by >= 1 octet; every primitive parser's error is tested on its own result; reflect Set in the special-type cases is type-correct. Semantic rejection of wrongly-typed input is not decided.",
+    "One trusted lemma: a shift-or accumulation of at most 7 octets into an int64 is non-negative (premise proved). Result atoms of a call are assumed to be used only after its error was tested (R4 checks that). Panics inside package reflect for exotic target types are out of scope.",
+    "DESIGN.md §4 C16")
+
 # id -> reason, for properties not (yet) claimed
 NOT_APPLICABLE = {
 }
